@@ -212,7 +212,10 @@ impl<'c> JoinReorderingRule<'c> {
     fn is_reorderable_join_chain<'a>(&self, plan: &'a LogicalOperator<'a>) -> bool {
         match plan {
             LogicalOperator::Join(join) => {
+                // every input must be a plain scan: build_join_tree can only re-attach
+                // conditions to inputs whose table names it knows (add_table_names)
                 matches!(join.join_type, JoinType::Inner | JoinType::Cross)
+                    && matches!(join.right, LogicalOperator::Scan(_))
                     && self.is_reorderable_join_chain(join.left)
             }
             LogicalOperator::Scan(_) => true,
@@ -323,16 +326,20 @@ impl<'c> JoinReorderingRule<'c> {
         let mut accumulated_tables: HashSet<&str> = HashSet::new();
         let mut result = ordered_tables[0];
         self.add_table_names(result, &mut accumulated_tables);
+        // every condition of the original tree must end up somewhere in the new one
+        let mut placed: SmallVec<[bool; 8]> = SmallVec::from_elem(false, all_conditions.len());
 
         for right_table in ordered_tables.iter().skip(1).copied() {
             let mut right_tables: HashSet<&str> = HashSet::new();
             self.add_table_names(right_table, &mut right_tables);
 
-            let applicable_conditions: SmallVec<[&'a Expr<'a>; 8]> = all_conditions
-                .iter()
-                .filter(|cond| self.condition_applies(&accumulated_tables, &right_tables, cond))
-                .copied()
-                .collect();
+            let mut applicable_conditions: SmallVec<[&'a Expr<'a>; 8]> = SmallVec::new();
+            for (i, cond) in all_conditions.iter().enumerate() {
+                if !placed[i] && self.condition_applies(&accumulated_tables, &right_tables, cond) {
+                    placed[i] = true;
+                    applicable_conditions.push(*cond);
+                }
+            }
 
             let join_condition = if applicable_conditions.is_empty() {
                 None
@@ -356,6 +363,24 @@ impl<'c> JoinReorderingRule<'c> {
             for table in right_tables {
                 accumulated_tables.insert(table);
             }
+        }
+
+        // conditions that name one table only, or whose tables extract_table_refs does not see
+        // (IN lists, BETWEEN, IS NULL ...), are kept as a filter over the inner-join chain
+        let leftover: SmallVec<[&'a Expr<'a>; 8]> = all_conditions
+            .iter()
+            .zip(placed.iter())
+            .filter(|(_, done)| !**done)
+            .map(|(cond, _)| *cond)
+            .collect();
+        if !leftover.is_empty() {
+            let predicate = self.combine_conditions(&leftover, arena);
+            result = arena.alloc(LogicalOperator::Filter(
+                crate::sql::planner::LogicalFilter {
+                    input: result,
+                    predicate,
+                },
+            ));
         }
 
         result
